@@ -242,6 +242,12 @@ def concrete_playback(src, target, harness, timeout_s, mem_gb, logf, want=None):
     txt = open(logf).read()
     # one generated test per failed check and per cover: keep the tests of FAILED checks only
     tests = [t for t in re.findall(r"```\n(.*?)```", txt, re.S) if "fn kani_concrete_playback_" in t]
+    if want and any("unwinding assertion" in w for w in want):
+        # Kani emits no playback test for an unwinding assertion: a termination query carries a
+        # cover!(true, "inputs chosen") placed after its last kani::any() and before the loop under
+        # test; that cover's assignment is a complete input vector for the native run
+        chosen = [t for t in tests if "inputs chosen" in t]
+        return chosen[0] if chosen else None
     tests = [t for t in tests if "Check for `cover`" not in t]
     if want:
         pref = [t for t in tests if any(w in t for w in want)]
